@@ -537,7 +537,7 @@ _add_run("C03", Run("pipeline_parameters", ["./internal/codegen"], {"internal/co
                                                                          "internal/codegen/zz_verif_c20_docs_pipeline.go": "harness/pcodegen/zz_stub_docs.go"},
                     ["VerifC03Interpolate"], "internal/codegen", needs_leaf=True, repeat=400, judge="prefix:C03"))
 _add_run("C03", Run("user_passes", ["./internal/ast/compiler"], COMPILER_HARNESS, ["VerifC03UserPasses"], "internal/ast/compiler", needs_leaf=True, repeat=400, judge="prefix:C03"))
-_add_run("C03", Run("converter", ["./internal/zzverif/hveneers"], VENEERS_HARNESS, ["VerifC14UnionLists", "VerifC03Compose"], "internal/zzverif/hveneers", test_pkg_name="hveneers",
+_add_run("C03", Run("converter", ["./internal/zzverif/hveneers"], VENEERS_HARNESS, ["VerifC14UnionLists", "VerifC03Compose", "VerifC03LanguageRefs"], "internal/zzverif/hveneers", test_pkg_name="hveneers",
                     needs_leaf=True, repeat=400, judge="prefix:C03"))
 _add_run("C03", Run("openapi_parser", ["./internal/openapi"], OPENAPI_HARNESS, ["VerifParserOpenAPI"], "internal/openapi", needs_leaf=True, repeat=400,
                     allow_unreached=["C05: a reference of the IR parsed from an OpenAPI document does not resolve", "C05: the parser lost or invented a definition"]))
